@@ -54,14 +54,17 @@ Print Assumptions C13_coll_scan_reverse.
 
 (* (3) SCAN / ADVSCAN of type d restricted to a table, forwards: exactly the matching keys of that table
    beyond the cursor, ascending, although the store scans on into the following tables.
-   Hypotheses on the store: every key of the type has the form "table:key" and no key of the scanned table
-   has the empty name (what the write path guarantees / the property's quantifier). *)
+   Hypothesis on the store: every key of the type has the form "table:key" (what the write path guarantees).
+   A key with the EMPTY name ("table:", admitted by SET) needs no hypothesis: it sorts before every cursor of
+   its table, so forwards it is never part of R (never returned: the lower bound is open — names are
+   non-empty in the property's quantifier), backwards it is the last element of R; only the number of calls
+   can then be one less than |R|/COUNT + 1 (see the example C13_ex_empty_key_name, replayed on the Go code by
+   corpus/C13/kv_key_with_empty_name.tsv). [no_empty_name db d table] = no such key is stored. *)
 Theorem C13_key_scan_forward :
   forall (compile : bytes -> option (bytes -> bool)) (db : list bytes) (d : dtype) (table pat : bytes)
          (m : bytes -> bool) (count : Z),
     sorted_db db -> ~ In key_sep table ->
     Forall (fun raw => extract_table raw <> None) (rawkeys d db) ->
-    ~ In (type_prefix d ++ wrap_cursor table []) db ->
     matcher compile pat = Some m -> (1 <= count)%Z ->
     forall (start : bytes) (fuel : nat),
       let R := filter m (filter (fun s => bytes_ltb (wrap_cursor table start) s)
@@ -70,7 +73,8 @@ Theorem C13_key_scan_forward :
       exists pages,
         iterate_keys compile fuel db d false table start pat count = (pages, Done) /\
         concat (map fst pages) = R /\
-        length pages = (length R / eff_count count + 1)%nat.
+        (length pages <= length R / eff_count count + 1)%nat /\
+        (no_empty_name db d table -> length pages = (length R / eff_count count + 1)%nat).
 Proof. exact key_scan_fwd. Qed.
 Print Assumptions C13_key_scan_forward.
 
@@ -80,7 +84,6 @@ Theorem C13_key_scan_reverse :
          (m : bytes -> bool) (count : Z),
     sorted_db db -> ~ In key_sep table ->
     Forall (fun raw => extract_table raw <> None) (rawkeys d db) ->
-    ~ In (type_prefix d ++ wrap_cursor table []) db ->
     matcher compile pat = Some m -> (1 <= count)%Z ->
     forall (start : bytes) (fuel : nat),
       let R := filter m (filter (fun s => bytes_ltb s (wrap_cursor table start))
@@ -89,7 +92,8 @@ Theorem C13_key_scan_reverse :
       exists pages,
         iterate_keys compile fuel db d true table start pat count = (pages, Done) /\
         concat (map fst pages) = R /\
-        length pages = (length R / eff_count count + 1)%nat.
+        (length pages <= length R / eff_count count + 1)%nat /\
+        (no_empty_name db d table -> length pages = (length R / eff_count count + 1)%nat).
 Proof. exact key_scan_rev. Qed.
 Print Assumptions C13_key_scan_reverse.
 
@@ -200,7 +204,6 @@ Theorem C13_key_scan_forward_default_count :
          (m : bytes -> bool) (count : Z),
     sorted_db db -> ~ In key_sep table ->
     Forall (fun raw => extract_table raw <> None) (rawkeys d db) ->
-    ~ In (type_prefix d ++ wrap_cursor table []) db ->
     matcher compile pat = Some m -> (count <= 0)%Z ->
     forall (start : bytes) (fuel : nat),
       let R := filter m (filter (fun s => bytes_ltb (wrap_cursor table start) s)
@@ -218,7 +221,6 @@ Theorem C13_key_scan_reverse_default_count :
          (m : bytes -> bool) (count : Z),
     sorted_db db -> ~ In key_sep table ->
     Forall (fun raw => extract_table raw <> None) (rawkeys d db) ->
-    ~ In (type_prefix d ++ wrap_cursor table []) db ->
     matcher compile pat = Some m -> (count <= 0)%Z ->
     forall (start : bytes) (fuel : nat),
       let R := filter m (filter (fun s => bytes_ltb s (wrap_cursor table start))
@@ -243,8 +245,7 @@ Theorem C13_cluster_scan :
          (m : bytes -> bool),
     (forall p, (p < length dbs)%nat ->
        sorted_db (nth p dbs []) /\
-       Forall (fun raw => extract_table raw <> None) (rawkeys d (nth p dbs [])) /\
-       ~ In (type_prefix d ++ wrap_cursor table []) (nth p dbs [])) ->
+       Forall (fun raw => extract_table raw <> None) (rawkeys d (nth p dbs []))) ->
     ~ In key_sep table ->
     matcher compile pat = Some m ->
     forall (reverse has_count : bool) (count : Z) (start : bytes) (fuel : nat),
@@ -365,3 +366,12 @@ Proof.
   - intro p. now rewrite repeat_length.
   - intro p. split; intro H; apply repeat_spec in H; discriminate.
 Qed.
+
+(* a KV key with the empty name "t:" (SET admits it): a forward SCAN from the empty cursor never returns it,
+   a reverse scan returns it last and then ends after |R|/COUNT calls (here 3/3 = 1) *)
+Example C13_ex_empty_key_name :
+  let db := [encode_kv_key [116;58]; encode_kv_key [116;58;97]; encode_kv_key [116;58;98]] in
+  iterate_keys mini_compile 5 db KV false [116] [] [] 3 = ([([[116;58;97]; [116;58;98]], [])], Done) /\
+  iterate_keys mini_compile 5 db KV true [116] [255] [] 3 =
+    ([([[116;58;98]; [116;58;97]; [116;58]], [])], Done).
+Proof. vm_compute. split; reflexivity. Qed.
